@@ -331,18 +331,18 @@ example : wrapped recorder (.list [.cell (.int 1), .cell (.str "!v")]) [] [] = .
   decide +kernel
 
 
-/-! ## zipper, lens, as_list, as_tuple
+/-! ## zzipper, zlens, as_list, as_tuple
 
 `items v` is what `zip` iterates over: the elements of a list/tuple, the keys of a dict, and `[v]` for a scalar
 or string — so scalars count as length-1 sequences. -/
 
-/-- **zipper zips equal-length sequences and broadcasts scalars and length-1 sequences**: if every argument
+/-- **zzipper zips equal-length sequences and broadcasts scalars and length-1 sequences**: if every argument
 has length `n` or 1 (`n` being the length of some argument, or 1), the result is the `n` rows whose `j`-th
 entry is the `i`-th element of argument `j`, or its only element. -/
 theorem zipper_spec (vs : List Val) (n : Nat) (hne : vs ≠ [])
     (hall : ∀ v ∈ vs, (items v).length = n ∨ (items v).length = 1)
     (hn : n = 1 ∨ ∃ v ∈ vs, (items v).length = n) :
-    zipper vs = .ok ((List.range n).map fun i => .tuple (vs.map fun v =>
+    zzipper vs = .ok ((List.range n).map fun i => .tuple (vs.map fun v =>
       if (items v).length = 1 then (items v).getD 0 (.cell .none)
       else (items v).getD i (.cell .none))) := by
   have hl : lensOf ((vs.map items).map List.length) = .ok n := by
@@ -357,17 +357,17 @@ theorem zipper_spec (vs : List Val) (n : Nat) (hne : vs ≠ [])
       · refine Or.inr ?_
         simp only [List.map_map, List.mem_map, Function.comp]
         exact ⟨v, hv, h⟩
-  unfold zipper
+  unfold zzipper
   simp only [hl]
   by_cases h1 : n > 1
   · simp only [h1, ↓reduceIte, zipN]
-    have hm : minLen ((vs.map items).map (bcast n)) = n := by
+    have hm : minLen ((vs.map items).map (zbcast n)) = n := by
       apply minLen_eq
       · simpa using hne
       · intro c hc
         simp only [List.map_map, List.mem_map, Function.comp] at hc
         obtain ⟨v, hv, rfl⟩ := hc
-        exact bcast_length n _ (hall v hv)
+        exact zbcast_length n _ (hall v hv)
     rw [hm, List.map_map]
     congr 1
     apply List.map_congr_left
@@ -406,16 +406,16 @@ theorem zipper_spec (vs : List Val) (n : Nat) (hne : vs ≠ [])
       intro v _
       simp
 
-/-- **zipper raises ValueError exactly when two arguments have different lengths neither of which is 1**
+/-- **zzipper raises ValueError exactly when two arguments have different lengths neither of which is 1**
 (and it raises nothing else). -/
 theorem zipper_raises_iff (vs : List Val) (e : Err) :
-    zipper vs = .error e ↔ e = .value ∧ ∃ a ∈ vs, ∃ b ∈ vs,
+    zzipper vs = .error e ↔ e = .value ∧ ∃ a ∈ vs, ∃ b ∈ vs,
       (items a).length ≠ (items b).length ∧ (items a).length ≠ 1 ∧ (items b).length ≠ 1 := by
   have key := lensOf_error_iff ((vs.map items).map List.length) e
-  have hz : zipper vs = .error e ↔ lensOf ((vs.map items).map List.length) = .error e := by
+  have hz : zzipper vs = .error e ↔ lensOf ((vs.map items).map List.length) = .error e := by
     cases hr : lensOf ((vs.map items).map List.length) with
-    | error e' => simp only [zipper, hr]; constructor <;> (intro h; cases h; rfl)
-    | ok n => simp only [zipper, hr]; simp
+    | error e' => simp only [zzipper, hr]; constructor <;> (intro h; cases h; rfl)
+    | ok n => simp only [zzipper, hr]; simp
   rw [hz, key]
   constructor
   · rintro ⟨he, a, ha, b, hb, h⟩
@@ -429,13 +429,13 @@ theorem zipper_raises_iff (vs : List Val) (e : Err) :
     · exact ⟨a, ha, rfl⟩
     · exact ⟨b, hb, rfl⟩
 
-/-- `zipper()` is empty; `lens()` is 0 -/
-theorem zipper_nil : zipper [] = .ok [] ∧ lens [] = .ok 0 := by decide +kernel
+/-- `zzipper()` is empty; `zlens()` is 0 -/
+theorem zipper_nil : zzipper [] = .ok [] ∧ zlens [] = .ok 0 := by decide +kernel
 
-/-- `lens` of sequences that all have length `n` or 1 is `n`; `lens` raises under the same condition as
-`zipper` (on `len0`: here scalars and strings count 0) -/
+/-- `zlens` of sequences that all have length `n` or 1 is `n`; `zlens` raises under the same condition as
+`zzipper` (on `len0`: here scalars and strings count 0) -/
 theorem lens_spec (vs : List Val) (n : Nat) (hne : vs ≠ []) (hall : ∀ v ∈ vs, len0 v = n ∨ len0 v = 1)
-    (hn : n = 1 ∨ ∃ v ∈ vs, len0 v = n) : lens vs = .ok n := by
+    (hn : n = 1 ∨ ∃ v ∈ vs, len0 v = n) : zlens vs = .ok n := by
   apply lensOf_ok
   · simpa using hne
   · intro l hl
@@ -445,15 +445,15 @@ theorem lens_spec (vs : List Val) (n : Nat) (hne : vs ≠ []) (hall : ∀ v ∈ 
     · exact Or.inl h
     · exact Or.inr (List.mem_map.2 ⟨v, hv, h⟩)
 
-/-- hypotheses of `zipper_spec` on `zipper([1,2,3], [4], 'ab', (5,6,7))` -/
-example : zipper [.list [.cell (.int 1), .cell (.int 2), .cell (.int 3)], .list [.cell (.int 4)],
+/-- hypotheses of `zipper_spec` on `zzipper([1,2,3], [4], 'ab', (5,6,7))` -/
+example : zzipper [.list [.cell (.int 1), .cell (.int 2), .cell (.int 3)], .list [.cell (.int 4)],
       .cell (.str "ab"), .tuple [.cell (.int 5), .cell (.int 6), .cell (.int 7)]] =
     .ok [.tuple [.cell (.int 1), .cell (.int 4), .cell (.str "ab"), .cell (.int 5)],
          .tuple [.cell (.int 2), .cell (.int 4), .cell (.str "ab"), .cell (.int 6)],
          .tuple [.cell (.int 3), .cell (.int 4), .cell (.str "ab"), .cell (.int 7)]] := by
   decide +kernel
 
-example : zipper [.list [.cell (.int 1), .cell (.int 2), .cell (.int 3)],
+example : zzipper [.list [.cell (.int 1), .cell (.int 2), .cell (.int 3)],
     .list [.cell (.int 4), .cell (.int 5)]] = .error .value := by decide +kernel
 
 /-- `as_list` is an idempotent normaliser -/
